@@ -471,7 +471,12 @@ pub fn c06(tier: &str, seed: u64, meta: &str) -> Report {
         if used.history.len() > 3000 { used.history.clear(); }
         let start = used.history.len();
         let word = |rng: &mut Rng| -> Vec<SEv> {
-            if phonetic { fpr.p.key_events(&word_pool(&fpr.p, rng, 1).pop().unwrap_or_else(|| "ami".into()), 0) } else {
+            if phonetic {
+                // now and then a word that starts with escape characters (they display as nothing on their own)
+                let t = if rng.chance(1, 8) { format!("{}{}", ["`", "``", "`"][rng.below(3)], ["a", "k", "ka", ""][rng.below(4)]) } else { word_pool(&fpr.p, rng, 1).pop().unwrap_or_else(|| "ami".into()) };
+                let t = if t.is_empty() { "`".to_string() } else { t };
+                fpr.p.key_events(&t, 0)
+            } else {
                 let vals = ["ি", "ে", "ৈ", "ক", "ত", "র", "্", "া", "ু", "্য", "্র", "র্", "(", "'", "অ", "ঁ", "১", "ল", "ম"];
                 let n = 1 + rng.below(5);
                 (0..n).map(|_| fpr.km.key(*rng.pick(&vals[..]))).map(|e| match e { crate::fx::Ev::Key(k, m) => SEv::Key(k, m, 0), _ => SEv::Finish }).collect()
